@@ -50,7 +50,7 @@ class MultiVector:
 
         # Sanitize input
         if keys is not None and not all(isinstance(k, int) for k in keys):
-            keys = tuple(k if k in algebra.bin2canon else algebra.canon2bin[k] for k in keys)
+            keys = tuple(int(k) if k in algebra.bin2canon else algebra.canon2bin[k] for k in keys)
         if grades is None and name and keys is not None:
             grades = tuple(sorted({format(k, 'b').count('1') for k in keys}))
         values = values if values is not None else list()
@@ -90,7 +90,7 @@ class MultiVector:
             raise TypeError(f'Length of `keys` and `values` have to match.')
 
         if not all(isinstance(k, int) for k in keys):
-            keys = tuple(key if key in algebra.bin2canon else algebra.canon2bin[key]
+            keys = tuple(int(key) if key in algebra.bin2canon else algebra.canon2bin[key]
                          for key in keys)
 
         if any(isinstance(v, str) for v in values):
